@@ -213,6 +213,9 @@ where
         // Get next tokens (lexer should skip ws if configured to do so).
         // If error run layout_parser. If there is layout try next tokens again.
         // If no next token can be returned report error returned from the lexer.
+        // Layout is parsed at most once before a token (as in the GLR parser),
+        // also when the lookahead is recognized again after a reduction.
+        let mut layout_parsing = context.layout_ahead().is_none();
         loop {
             let expected_tokens = self.definition.expected_token_kinds(context.state());
             let mut next_tokens = self.lexer.next_tokens(context, input, expected_tokens);
@@ -243,7 +246,8 @@ where
                 return Ok(next_token);
             } else {
                 // No token found at current position. Try layout if configured.
-                if let Some(layout_parser) = layout_parser {
+                if let (true, Some(layout_parser)) = (layout_parsing, layout_parser) {
+                    layout_parsing = false;
                     log!("\n{}", "*** Parsing layout".paint(WARN_BOLD));
                     let current_state = context.state();
                     let current_span = context.span();
